@@ -137,4 +137,17 @@ theorem follow_tbl : ∀ c : UInt8, ((tStructuralOrWhitespaceNegated.getD c.toNa
 theorem follow_tbl64 : ∀ c : UInt8, ((tStructuralOrWhitespaceNegated.getD c.toNat 0).toUInt8.toUInt64 == 0) = isFollow c :=
   forall_u8 (by decide +kernel)
 
+/-- `isNumberRune[v]` as the interpreter reads it -/
+def runeU8 (x : UInt8) : UInt8 := (tIsNumberRune.getD x.toNat 0).toUInt8
+
+theorem runeU8_toNat : ∀ x : UInt8, (runeU8 x).toNat = numRune x := forall_u8 (by decide +kernel)
+theorem runeU8_zero : ∀ x : UInt8, (runeU8 x = 0) ↔ numRune x = 0 := forall_u8 (by decide +kernel)
+theorem runeU8_eov : ∀ x : UInt8, (runeU8 x = 8) ↔ numRune x = 8 := forall_u8 (by decide +kernel)
+theorem runeU8_must : ∀ x : UInt8, (0 < runeU8 x &&& 32) ↔ numRune x &&& 32 > 0 := forall_u8 (by decide +kernel)
+theorem runeU8_digit : ∀ x : UInt8, (runeU8 x &&& 16 = 0) ↔ numRune x &&& 16 = 0 := forall_u8 (by decide +kernel)
+theorem runeU8_float : ∀ x : UInt8, (runeU8 x &&& 2 = 0) ↔ numRune x &&& 2 = 0 := forall_u8 (by decide +kernel)
+
+theorem runeU8_minus : ∀ x : UInt8, (runeU8 x &&& 4 = 0) ↔ numRune x &&& 4 = 0 := forall_u8 (by decide +kernel)
+theorem numRune_lt : ∀ x : UInt8, numRune x < 256 := forall_u8 (by decide +kernel)
+
 end SJ.GoNumber
